@@ -1146,7 +1146,7 @@ func TestRandomGraphs(t *testing.T) {
 func TestStructured(t *testing.T) {
 	ev.Rule(rule)
 	ev.Rapid(t, "c18-structured", 40, 640, func(rt *rapid.T) {
-		c := &BigCase{Kind: rapid.SampledFrom([]string{"doubled-path", "two-cycles-chain", "fan", "path", "cycle", "tree", "layers", "backedges", "reversed-path"}).Draw(rt, "kind")}
+		c := &BigCase{Kind: rapid.SampledFrom([]string{"selfloops-path", "lcg-random", "doubled-path", "two-cycles-chain", "fan", "path", "cycle", "tree", "layers", "backedges", "reversed-path"}).Draw(rt, "kind")}
 		switch rapid.IntRange(0, 4).Draw(rt, "size") {
 		case 4: // around the 64-component mark and other word sizes
 			c.N = rapid.SampledFrom([]int{63, 64, 65, 66, 67, 100, 127, 128, 129, 130, 200, 255, 256, 257}).Draw(rt, "wordsize")
